@@ -65,6 +65,8 @@ def build(cfg, work):
             cmd += ["-instpkgs", ",".join(spec["instpkgs"])]
         if spec.get("redirect"):
             cmd += ["-redirect", ",".join(spec["redirect"])]
+        if spec.get("textpatches"):
+            cmd += ["-textpatches", spec["textpatches"]]
         e = env()
         p = subprocess.run(cmd, env=e, stdout=subprocess.PIPE, stderr=subprocess.PIPE, text=True)
         inst_log.append(p.stderr)
